@@ -180,14 +180,26 @@ open YaraModel.ReVm YaraModel.ReEmit in
     specification admits at that position.  The proof goes through an abstract machine with the three states of a
     REPEAT_ANY fiber (arriving / waiting for a character / just consumed) and a continuation language per machine state; it
     is the instance for hex ASTs of the theorem for ALL well-formed expressions (Thm/C03 `vm_sound`).
-    Separate statements, not yet proved: the same for backward code and for the fast matcher `yr_re_fast_exec`, and the
-    converse inclusion (completeness: every admissible length is reported in exhaustive mode). -/
+    Backward code: `vm_sound_backward` below.  Separate statements, not yet proved: the fast matcher `yr_re_fast_exec`,
+    runs entering the code at an atom's instruction, and the converse inclusion (completeness: every admissible length
+    is reported in exhaustive mode). -/
 theorem vm_sound (r : Re) (hx : HexAst r) (hsz : (emit false r 0).1.length < 32000) (buf : Bytes) (start : Nat) (hst : start ≤ buf.size)
     (fl : VmFlags) (hw : fl.wide = false) (hb : fl.backwards = false) (hsc : fl.scan = false) (fuel : Nat) (m : Int) (c : List Nat)
     (h : exec { code := (emitCode false r).toArray, entry := 0, buf := buf, start := start, fl := fl, syncFuel := fuel } = .done m c) :
     (∀ L, L ∈ c → Re.Matches (specFlags fl) buf r start (start + L)) ∧
     (0 ≤ m → Re.Matches (specFlags fl) buf r start (start + m.toNat)) :=
   vm_sound_wf r hx.wf hsz buf start hst fl hw hb hsc fuel m c h
+
+open YaraModel.ReVm YaraModel.ReEmit in
+/-- `vm_sound_backward`: the same for the BACKWARD code of a hex pattern (the bytes before the atom): run with
+    RE_FLAGS_BACKWARDS from `start`, every reported length L satisfies L ≤ start and the pattern matches buf[start - L, start).
+    For ALL hex ASTs, buffers and start positions (instance of Thm/C03 `vm_sound_backward`). -/
+theorem vm_sound_backward (r : Re) (hx : HexAst r) (hsz : (emit true r 0).1.length < 32000) (buf : Bytes) (start : Nat) (hst : start ≤ buf.size)
+    (fl : VmFlags) (hb : fl.backwards = true) (hsc : fl.scan = false) (fuel : Nat) (m : Int) (c : List Nat)
+    (h : exec { code := (emitCode true r).toArray, entry := 0, buf := buf, start := start, fl := fl, syncFuel := fuel } = .done m c) :
+    (∀ L, L ∈ c → L ≤ start ∧ Re.Matches (specFlagsG fl) buf r (start - L) start) ∧
+    (0 ≤ m → m.toNat ≤ start ∧ Re.Matches (specFlagsG fl) buf r (start - m.toNat) start) :=
+  vm_sound_bwd r hx.wf hsz buf start hst fl hb hsc fuel m c h
 
 open YaraModel.ReEmit in
 /-- instance: `41 ( 42 | ?3 44 ) [1-2] ~45` is a hex AST -/
